@@ -142,7 +142,7 @@ func c05() {
 		cases = append(cases, tpolicy{x.t, x.p, "c03-catalogue"})
 	}
 	nCat := len(cases)
-	nRandom := run.N(1500, 40000)
+	nRandom := run.N(6000, 100000)
 	// programs around the 4096 limit
 	type sized struct {
 		t       *vlib.Target
@@ -385,7 +385,7 @@ func c05KernelTier(run *vlib.Run, ts []*vlib.Target) {
 			}{h.goarch, h.t, neutralise(vlib.SpecOf(tp.p, h.t.Name)), tp.kind})
 		}
 	}
-	nRandom := run.N(40, 2000)
+	nRandom := run.N(150, 4000)
 	for i := 0; i < nRandom; i++ {
 		r := caseRand(run, 5000000+i)
 		h := hosts[i%2]
